@@ -580,3 +580,7 @@ impl AymBackend for AymPrecise {
         }
     }
 }
+
+#[cfg(kani)]
+#[path = "/verif/hooks/aym/precise.rs"]
+mod verif_hooks;
